@@ -58,6 +58,8 @@ func main() {
 		code = scenarioReset()
 	case "resolve":
 		code = scenarioResolve()
+	case "multilisten":
+		code = scenarioMultiListen()
 	case "pintime":
 		code = scenarioPinTime()
 	default:
